@@ -1,7 +1,6 @@
 /-
-  The rollback theorem plugged into the reorg / history theorems (which take it as the hypothesis
-  `DisconnectSpec`): final forms whose only assumption about rollback is that coinbase outputs in the
-  block files are not staking / binding scripts (`CbNoDeposit`, see `CbPlainBlock`).
+  The rollback theorem (`disconnect_sound`, no assumption about the block files beyond the ones of
+  `DisconnectSpec` itself) in the forms used by the reorg / history theorems, and its consequences.
 -/
 import MW.Lemmas.LedgerDisc2
 import MW.Lemmas.LedgerIssue2
@@ -11,27 +10,18 @@ import MW.Lemmas.LedgerInit
 namespace MW.Lemmas.Ledger
 open MW MW.Model.Ledger MW.Spec.Chain MW.Spec.Books
 
-/-- no coinbase transaction in the block files has a staking / binding output (to anybody) -/
-def CbNoDeposit (known : AMap.T BlkId Block) : Prop :=
-  ∀ id x, AMap.get known id = some x → ∀ t ∈ x.txs, t.cb = true → ∀ o ∈ t.outs, isDeposit o.cls = false
+/-- disconnecting the tip block, for every context -/
+theorem disconnectSpec_of {c : Ctx} : DisconnectSpec c := disconnect_sound
 
-theorem knownCbPlain_of {c : Ctx} (h : CbNoDeposit c.node.known) : KnownCbPlain c := by
-  intro id x hx t ht hcb o ho _
-  exact h id x hx t ht hcb o ho
-
-/-- disconnecting the tip block, for every context over block files without deposit coinbases -/
-theorem disconnectSpec_of {c : Ctx} (h : CbNoDeposit c.node.known) : DisconnectSpec c :=
-  disconnect_sound (knownCbPlain_of h)
-
-theorem disconnectSpec_env (e : Env) (h : CbNoDeposit e.known) (own : Own) (ch : List Block) :
+theorem disconnectSpec_env (e : Env) (own : Own) (ch : List Block) :
     DisconnectSpec ({ e with own := own }.ctx ch) :=
-  disconnectSpec_of (c := { e with own := own }.ctx ch) h
+  disconnectSpec_of (c := { e with own := own }.ctx ch)
 
 /-- rollback_connect: connecting a block and disconnecting it again restores every mined bucket
     extensionally (the pending buckets legitimately differ: rolled-back transactions return to the
     pending set) -/
 theorem rollback_connect_inv {c : Ctx} {s s1 s2 : Store} {chain rest : List Block} {b : Block} {conf : List TxId}
-    (hcb : CbNoDeposit c.node.known) (hI : Inv c s chain) (hne : chain ≠ [])
+    (hI : Inv c s chain) (hne : chain ≠ [])
     (hnode : c.node.chain = chain ++ b :: rest) (hvalid : ChainValid c.own c.node.chain)
     (hH : HeightsOK c.node.chain) (hknown : AMap.get c.node.known b.id = some b)
     (hAR : AllReady c.own (readyWallets s c.wallets)) (hre : (readyWallets s c.wallets).isEmpty = false)
@@ -51,7 +41,7 @@ theorem rollback_connect_inv {c : Ctx} {s s1 s2 : Store} {chain rest : List Bloc
   have hH1 : HeightsOK (chain ++ [b]) := by
     apply heightsOK_prefix (a := chain ++ [b]) (c := rest)
     rw [show chain ++ [b] ++ rest = chain ++ b :: rest by simp, ← hnode]; exact hH
-  obtain ⟨s2', h2', hI2, _⟩ := disconnectSpec_of hcb s1 chain b hI1 hne hv1 hH1 hknown
+  obtain ⟨s2', h2', hI2, _⟩ := disconnectSpec_of s1 chain b hI1 hne hv1 hH1 hknown
     (by rw [readyWallets_congr hst]; exact hAR)
   rw [h2] at h2'
   have e2 : s2 = s2' := by injection h2' with h
